@@ -181,6 +181,15 @@ func (e *esdtNFTMultiTransfer) ProcessBuiltinFunction(
 				return nil, err
 			}
 		} else {
+			if mustVerifyPayable(vmInput, int(minNumOfArguments)) {
+				isPayable, errIsPayable := e.payableHandler.IsPayable(vmInput.RecipientAddr)
+				if errIsPayable != nil {
+					return nil, errIsPayable
+				}
+				if !isPayable {
+					return nil, ErrAccountNotPayable
+				}
+			}
 			err = addToESDTBalance(acntDst, esdtTokenKey, big.NewInt(0).SetBytes(vmInput.Arguments[tokenStartIndex+2]), e.marshalizer, e.pauseHandler, vmInput.ReturnCallAfterError)
 			if err != nil {
 				return nil, err
